@@ -92,11 +92,13 @@ def negative_controls():
 
 def run_harness(bin_path, cases, out, seed, npki, algs, scratch):
     env = {k: v for k, v in os.environ.items() if k != "SSLKEYLOGFILE"}
+    t = time.time()
     rc, o = vlib.run([bin_path, cases, out, str(seed), str(npki), algs, NAMEKINDS, scratch], timeout=3000, env=env)
     if rc != 0:
         log(o[-3000:])
         raise ToolError("tls_matrix failed on " + cases)
     shutil.rmtree(scratch, ignore_errors=True)
+    log(f"[run] tls_matrix {os.path.basename(cases)} x {npki} PKI set(s): {sum(1 for _ in open(out))} lines ({time.time() - t:.1f}s)")
 
 
 def validate(path):
@@ -219,7 +221,9 @@ def check(prop, tier, seed, replay):
         samples = []
         pki_sets = set()
         for name, path in logs:
+            tv = time.time()
             n, bad, _ = validate(path)
+            tv = time.time() - tv
             lines = open(path).readlines()
             if n != len(lines) or n == 0:
                 raise ToolError(f"TLC saw {n} lines of {len(lines)} in {name}")
@@ -257,7 +261,7 @@ def check(prop, tier, seed, replay):
                             nontrivial.add(("script", json.dumps(h["ops"]), h["mtls"], h["alg"], h["namekind"], h["pki"]))
                             if rec["op"] == "use" and not any(s.get("ev") == "step" for s in samples):
                                 samples.append(rec)
-            log(f"[trace] {name}: {n} lines, {n - len(bad)} accepted by TLC, {len(bad)} rejected")
+            log(f"[trace] {name}: {n} lines, {n - len(bad)} accepted by TLC, {len(bad)} rejected ({tv:.1f}s)")
         # 4. verdict
         known = {k.get("sig"): k for k in vlib.load_known()
                  if k.get("property") == prop and k.get("status") == "open" and k.get("sig")}
